@@ -177,15 +177,20 @@ def main(argv=None):
     for v in violations:
         seen.setdefault(v["key"], v)
     new, kn, nonrep = [], {}, []
+    unconfirmed_known = 0
     for key, v in sorted(seen.items()):
-        if not v.get("reproduced", False):
-            nonrep.append(v)
-            continue
         hit = None
         for k in known:
             if re.search(k["match"], key):
                 hit = k
                 break
+        if not v.get("reproduced", False):
+            if hit is not None:
+                # an instance of a listed finding that the concrete replay could not confirm: not an alarm, not a harness error
+                unconfirmed_known += 1
+                continue
+            nonrep.append(v)
+            continue
         if hit is not None:
             kn.setdefault(hit["match"], (hit, []))[1].append(key)
         else:
@@ -226,6 +231,7 @@ def main(argv=None):
     cov["inconclusive"] = agg.get("inconclusive", 0)
     cov["known_findings_hit"] = sorted(h["what"] for h, _ in kn.values())
     cov["harness_errors"] = len(herr) + len(nonrep)
+    cov["known_finding_instances_not_confirmed_by_replay"] = unconfirmed_known
     if notes:
         cov["notes"] = notes[:30]
     ev = {
